@@ -62,6 +62,7 @@ type Report struct {
 	start       time.Time
 	quiet       bool
 	alias       map[string]string // when set: rule ids are rewritten through it and rules not listed are dropped
+	keep        func(construct string) bool // with alias: only obligations about these constructs are taken over
 }
 
 // WithAlias runs f (another property's rule set) keeping only the listed rules, reported under this property's ids.
@@ -84,6 +85,15 @@ func (r *Report) WithAlias(alias map[string]string, f func()) {
 	r.Explanation, r.NotDecided, r.Assumptions = expl, nd, as
 }
 
+// WithAliasOnly: like WithAlias, restricted to the constructs keep accepts (a rule of another property applied to the
+// part of the program this property is about); the instance floor of the borrowed rule does not apply to the part.
+func (r *Report) WithAliasOnly(alias map[string]string, keep func(construct string) bool, f func()) {
+	prev := r.keep
+	r.keep = keep
+	r.WithAlias(alias, f)
+	r.keep = prev
+}
+
 func newReport(prop, tier string, seed int, c *Ctx) *Report {
 	return &Report{Prop: prop, Tier: tier, Seed: seed, c: c, Rules: map[string]*RuleInfo{}, Controls: map[string]string{}, Extra: map[string]any{}, start: procStart}
 }
@@ -96,6 +106,9 @@ func (r *Report) Rule(id, template string, min int) {
 			return
 		}
 		id = a
+		if r.keep != nil {
+			min = 0
+		}
 	}
 	if _, ok := r.Rules[id]; !ok {
 		r.ruleOrder = append(r.ruleOrder, id)
@@ -110,6 +123,9 @@ func (r *Report) add(o Obligation) {
 			return
 		}
 		o.Rule = a
+		if r.keep != nil && o.Verdict != "control" && !r.keep(o.Construct) {
+			return
+		}
 	}
 	if ri := r.Rules[o.Rule]; ri != nil && o.Verdict != "control" {
 		ri.Instances++
